@@ -451,6 +451,36 @@ Section Colmap.
   Definition run_history (h : list (iopts * dataset)) : list (result dataset) :=
     map (fun s => roundtrip_mode (fst s) (snd s)) h.
 
+  (* the export TARGET (database path + reconstruction directory) as a store: export_colmap with
+     force_overwrite_existing REPLACES what the target held -- the database is removed and rebuilt, cameras.txt and
+     points3D.txt are rewritten, images.txt is rewritten or, when the dataset has no trajectories, removed
+     (fixes/C13-export-removes-stale-images-txt.patch; before it the images.txt of an earlier export stayed).  So the
+     artefacts after an export are a function of the exported dataset only; None = the export raised. *)
+  Definition store := option colmap.
+  Definition export_to (before : store) (d : dataset) : store := export d.
+  (* before the repair: no images.txt written when there are no trajectories, and the one already there stayed *)
+  Definition export_to_legacy (before : store) (d : dataset) : store :=
+    match export d with
+    | Some c => Some (fst c, mkTX (tx_cameras (snd c))
+                                  (match tx_images (snd c), before with
+                                   | None, Some b => tx_images (snd b)
+                                   | i, _ => i
+                                   end) (tx_points (snd c)))
+    | None => None
+    end.
+  Definition step_on (s : store) (od : iopts * dataset) : store * result dataset :=
+    let s' := export_to s (snd od) in
+    (s', match s' with
+         | None => RExport
+         | Some c => if import_ok_mode (fst od) c then ROk (import_mode (fst od) c) else RImport
+         end).
+  (* calls that re-use one target, starting from any content *)
+  Fixpoint run_on (s : store) (h : list (iopts * dataset)) : list (result dataset) :=
+    match h with
+    | [] => []
+    | od :: h' => let r := step_on s od in snd r :: run_on (fst r) h'
+    end.
+
   (* ---------------------------------------------------------------- COLMAP's expressive range, as a boolean *)
   Definition is_int (q : Q) : bool := Pos.eqb (Qden q) 1.
   Definition camera_in_range (s : sensor) : bool :=
@@ -509,6 +539,15 @@ Definition roundtrip_mode_with (comp : pose -> pose -> pose) (legacy : bool) : i
                  Tcolmap.camera_model_ids Tcolmap.camera_model_names Tcolmap.unknown_camera
                  Tcolmap.unknown_camera_exported_as Tcolmap.default_focal_length_factor Tcolmap.max_image_id legacy.
 Definition roundtrip_mode_x := roundtrip_mode_with MRigs.comp_x false.
+(* two exports to one target then a full import, with the pre-fix exporter (stale images.txt) *)
+Definition reexport_legacy (a b : dataset) : option dataset :=
+  let ex := export MPose.compose2 Q (fun x => x) Tcolmap.camera_model_ids Tcolmap.camera_model_names Tcolmap.unknown_camera
+                   Tcolmap.unknown_camera_exported_as Tcolmap.default_focal_length_factor Tcolmap.max_image_id false in
+  match export_to_legacy MPose.compose2 Q (fun x => x) Tcolmap.camera_model_ids Tcolmap.camera_model_names Tcolmap.unknown_camera
+                         Tcolmap.unknown_camera_exported_as Tcolmap.default_focal_length_factor Tcolmap.max_image_id false (ex a) b with
+  | Some c => Some (import_data Q (fun x => x) cam_name_x Tcolmap.camera_model_names Tcolmap.max_image_id false c)
+  | None => None
+  end.
 Definition roundtrip_spec := roundtrip_with MPose.compose2 false.
 Definition roundtrip_x := roundtrip_with MRigs.comp_x false.
 Definition roundtrip_legacy_x := roundtrip_with MRigs.comp_x true.
